@@ -394,3 +394,163 @@ pub fn large_mixed_case(rng: &mut Rng, steps: usize) -> Vec<u8> {
     debug_assert!(std::str::from_utf8(&b).is_ok());
     b
 }
+
+/// Mostly-ASCII text longer than the default window, carrying short passages that are valid in several
+/// multi-byte encodings (ISO-2022-JP escapes, HZ `~{ ~}` runs, EUC-range byte pairs) and a sprinkle of
+/// control characters so that the `ascii`/`utf-8` hints do not end the run early: many candidates of
+/// *different decoded lengths* get accepted one after the other, which is what makes a dependence of one
+/// candidate's verdict on an earlier candidate visible.
+pub fn multi_candidate_case(rng: &mut Rng) -> Case {
+    let base = TEXTS[0].1;
+    let mut sett = Sett::default();
+    if rng.chance(1, 4) {
+        sett.steps = rng.range(2, 9);
+        sett.chunk = rng.range(200, 700);
+    }
+    // a little more than the window in *bytes*, so that a candidate which needs several bytes per
+    // character decodes to less than the window in *characters*
+    let window = sett.steps * sett.chunk;
+    let target = if rng.chance(2, 3) { window + rng.range(20, window / 8) } else { rng.range(2600, 6000) };
+    let mut b: Vec<u8> = Vec::with_capacity(target + 64);
+    let flavour = rng.below(4); // 0: iso-2022-jp, 1: hz, 2: euc pairs, 3: all mixed
+    let words: Vec<&str> = base.split(' ').collect();
+    let ctrl_every = rng.range(55, 75);
+    let mut since_ctrl = 0usize;
+    while b.len() < target {
+        let w = *rng.pick(&words[..]);
+        b.extend_from_slice(w.as_bytes());
+        b.push(b' ');
+        since_ctrl += w.len() + 1;
+        if since_ctrl >= ctrl_every {
+            since_ctrl = 0;
+            // (no ESC / tilde here: they would end the ISO-2022-JP / HZ reading of the text)
+            b.push(*rng.pick(&[1u8, 2, 7, 0x10]));
+        }
+        if rng.chance(1, 14) {
+            let f = if flavour == 3 { rng.below(3) } else { flavour };
+            match f {
+                0 => {
+                    // JIS X 0208 two-byte characters between ESC $ B and ESC ( B
+                    b.extend_from_slice(b"\x1b$B");
+                    for _ in 0..rng.range(2, 9) {
+                        b.push(0x30 + rng.below(0x1f) as u8);
+                        b.push(0x21 + rng.below(0x5d) as u8);
+                    }
+                    b.extend_from_slice(b"\x1b(B ");
+                }
+                1 => {
+                    b.extend_from_slice(b"~{");
+                    for _ in 0..rng.range(2, 9) {
+                        b.push(0x30 + rng.below(0x40) as u8);
+                        b.push(0x21 + rng.below(0x5d) as u8);
+                    }
+                    b.extend_from_slice(b"~} ");
+                }
+                _ => {
+                    for _ in 0..rng.range(2, 9) {
+                        b.push(0xb0 + rng.below(0x18) as u8);
+                        b.push(0xa1 + rng.below(0x5d) as u8);
+                    }
+                    b.push(b' ');
+                }
+            }
+        }
+    }
+    match rng.below(4) {
+        0 => sett.thr = 0.6,
+        1 => sett.thr = 0.35,
+        _ => {}
+    }
+    if rng.chance(1, 2) {
+        sett.fb = false;
+    }
+    Case { bytes: b, sett, tag: format!("multi-candidate:{}", flavour) }
+}
+
+/// Content that *declares* `utf-8` or `ascii` (any spelling) – encodings that are hints anyway – and is
+/// messy enough (control characters) for the declared encoding to be accepted with chaos between 10 %
+/// and the threshold: no early exit, so the rest of the probing order still runs.
+pub fn declared_self_case(rng: &mut Rng) -> Case {
+    let label = *rng.pick(&["utf-8", "utf8", "UTF-8", "ascii", "us-ascii", "unicode-1-1-utf-8", "ANSI_X3.4-1968", "utf-8"]);
+    let is_utf8 = label.to_ascii_lowercase().contains("utf");
+    let decl = match rng.below(3) {
+        0 => format!("# -*- coding: {} -*-\n", label),
+        1 => format!("<meta charset=\"{}\">\n", label),
+        _ => format!("<?xml version=\"1.0\" encoding=\"{}\"?>\n", label),
+    };
+    let base = if is_utf8 { *rng.pick(&[TEXTS[1].1, TEXTS[2].1, TEXTS[3].1, TEXTS[0].1]) } else { TEXTS[0].1 };
+    let every = rng.range(45, 75);
+    let target = rng.range(300, 1800);
+    let mut s = decl;
+    let mut n = 0usize;
+    let chars: Vec<char> = base.chars().collect();
+    let mut k = 0usize;
+    while n < target {
+        s.push(chars[k % chars.len()]);
+        k += 1;
+        n += 1;
+        if n % every == 0 {
+            s.push(*rng.pick(&['\u{1b}', '\u{1}', '\u{7}', '\u{2}']));
+        }
+    }
+    let mut sett = Sett::default();
+    if rng.chance(1, 3) {
+        sett.thr = 0.3;
+    }
+    Case { bytes: s.into_bytes(), sett, tag: format!("declared-self:{}", label) }
+}
+
+/// UTF-8 text over code points at the edges of the Unicode block table and of the planes
+pub fn unicode_extremes_text(rng: &mut Rng) -> String {
+    const POOL: &[u32] = &[
+        0x7f, 0x80, 0x7ff, 0x800, 0xd7ff, 0xe000, 0xfdd0, 0xfffd, 0xfffe, 0xffff, 0x10000, 0x1fa73, 0x1fbff, 0x2fa1f, 0x30000,
+        0x3134f, 0xe0001, 0xe007f, 0xe0100, 0xe01ef, 0xe01f0, 0xeffff, 0xf0000, 0xffffd, 0x100000, 0x10fffd, 0x10ffff,
+    ];
+    let n = rng.range(1, 40);
+    let mut s = String::new();
+    for _ in 0..n {
+        if rng.chance(1, 2) {
+            s.push_str(*rng.pick(&["word ", "text ", "a", " ", "été "]));
+        } else if let Some(c) = char::from_u32(*rng.pick(POOL)) {
+            s.push(c);
+        }
+    }
+    s
+}
+
+/// > 1 MB of ASCII text whose tail (beyond byte 500 000) carries control characters; with a window that
+/// covers the input every character has to be analysed, whichever codec reads the bytes.
+pub fn large_fit_ascii(rng: &mut Rng, heavy: bool) -> Vec<u8> {
+    let len = 1_050_000 + rng.below(100_000);
+    let line = b"The quick brown fox jumps over the lazy dog and keeps running through the quiet forest.\n";
+    let mut b: Vec<u8> = Vec::with_capacity(len);
+    while b.len() < len {
+        b.extend_from_slice(line);
+    }
+    b.truncate(len);
+    let start = 520_000 + rng.below(100_000);
+    let every = if heavy { 20 } else { 75 };
+    let mut i = start;
+    while i < len {
+        b[i] = *rng.pick(&[1u8, 2, 7, 0x1b]);
+        i += every;
+    }
+    b
+}
+
+/// > 1 MB that declares a single-byte code page with unassigned bytes, is ASCII otherwise, and carries
+/// one byte that code page cannot decode beyond offset 500 000, away from every probed window.
+pub fn large_declared_bad_tail(rng: &mut Rng) -> (Vec<u8>, &'static str) {
+    let (enc, bad): (&'static str, u8) = *rng.pick(&[("windows-1253", 0xaa), ("windows-1255", 0xd9), ("iso-8859-7", 0xae), ("windows-1257", 0xa1), ("iso-8859-3", 0xa5), ("windows-1253", 0xd2)]);
+    let len = 1_000_100 + rng.below(200_000);
+    let mut b: Vec<u8> = format!("<?xml version=\"1.0\" encoding=\"{}\"?>\n", enc).into_bytes();
+    let line = b"plain text line without anything special in it, repeated many times over.\n";
+    while b.len() < len {
+        b.extend_from_slice(line);
+    }
+    b.truncate(len);
+    // default windows start at multiples of len/5 (512 bytes each); stay clear of them
+    let pos = 900_001 + rng.below(50_000);
+    b[pos] = bad;
+    (b, enc)
+}
